@@ -55,3 +55,10 @@ class Box:
 
   def __repr__(self):
     return f'Box({self.v})'
+
+
+def task_fn(i, fail=None):
+  """A unit of work for as_completed; `fail` makes task i raise."""
+  if fail is not None and i == fail:
+    raise ValueError(f'application error in task {i}')
+  return ('r', i)
